@@ -17,12 +17,13 @@ LEVEL = "proof"
 P = "moclo/moclo/core/parts.py"
 FILES = [P, "moclo/moclo/core/modules.py", "moclo/moclo/core/vectors.py", "moclo/moclo/_utils.py"]
 FUNCTIONS = [(P, "AbstractPart.structure"), (P, "AbstractPart.characterize"), ("moclo/moclo/core/_structured.py", "StructuredRecord.is_valid"),
-             ("moclo/moclo/core/_structured.py", "StructuredRecord._get_regex")]
+             ("moclo/moclo/core/_structured.py", "StructuredRecord._get_regex"),
+             ("moclo/moclo/_utils.py", "isabstract")]
 ASSUMES = ["D-RESTR (elucidate / ovhgseq constants of the enzymes, read from Bio.Restriction on every run)", "D-SEQ",
            "RE4/RE5: for two patterns of the same shape that differ only in the class words of groups 1 and 3, a window matches "
            "the narrower one iff it matches the wider one with the same spans and the two group texts match the narrower class "
            "words (semantics of re)", "IUPAC class semantics (C16)",
-           "moclo._utils.isabstract is a constant of the class (assumed contract)",
+           "D-REFLECT (inspect.isabstract, dir, getattr are functions of the class): isabstract's body is verified against that",
            "hypothesis of the statement: unique generic match"]
 TRUSTED = ["CPython re", "Bio.Restriction"]
 EXPLANATION = ("body VC of AbstractPart.structure for every enzyme geometry and both roles with a *symbolic* signature: the part "
@@ -325,6 +326,6 @@ LEVEL_TEXT = ("Deductive: AbstractPart.structure is executed symbolically for ev
               "halves; each of the signature-typed kit classes is additionally checked literally; the characterize loop is "
               "verified (first accepting candidate; RuntimeError exactly when none). The step from `same shape, narrower class "
               "words` to `accepted iff generic accepts and overhangs match` is the assumed semantics of re.")
-LEVEL_NOTE = ("Assumed: re semantics (RE4/RE5 refinement), Bio.Restriction constants, isabstract. Bounded part (not proved): members, "
+LEVEL_NOTE = ("Assumed: re semantics (RE4/RE5 refinement), Bio.Restriction constants, reflection (D-REFLECT). Bounded part (not proved): members, "
               "all one-letter near-misses, siblings, random generic modules for every signature-typed class; user signatures; "
               "characterize on a user kit.")
